@@ -157,6 +157,23 @@ PROPS = {
         "level_text": "A shot is an ordered log of writes and the statement defines the result as replaying that log; the check generates logs step by step and compares the real conversion with a reference register file after every append, then the multi-shot aggregations under every strictness flag pair. There are no faults, clocks or interleavings here (single actor) - what is simulated is ordering inside a history, the weakest fit of the technique among the claimed properties, stated as such in DESIGN.md.",
         "level_note": "Trusted: the reference replay in props/c19.py and the documented tag pattern. A non-bit value that a later entry with the same tag supersedes is ambiguous under the statement; both outcomes are accepted there (counted by a probe).",
     },
+    "C20": {
+        "engine": "B", "level": "exploration",
+        "tiers": {"quick": {"batches": 16, "runs": 150, "budget_s": 50, "floor_runs": 600},
+                  "thorough": {"batches": 64, "runs": 2000, "budget_s": 550, "floor_runs": 20000}},
+        "rule": "one run = an engine-B builder program of any root kind (order, constant, function and control-flow edges, "
+                "metadata, nested containers; interleaved builders) rendered with the default configuration and with a drawn "
+                "palette x qualify_op_name; the DOT source is parsed and compared with the HUGR: one node statement per node with "
+                "the display name, clusters nested as the hierarchy, one edge statement per link with node indices and offsets, "
+                "value edges labelled with their type, port cells 0..k-1 covering every linked port, HUGR unchanged, structure "
+                "independent of the configuration; non-trivial = >= 3 builder calls",
+        "real": ["hugr.hugr.render.DotRenderer, graphviz.Digraph source generation"],
+        "stub": ["the dot layout binary is not run in the quick tier (DOT source only)"],
+        "expected_probes": ["order_edges_rendered", "cfg", "conditional", "call", "const_in_outer_scope"],
+        "technique": "rendering of seeded interleaved-builder products (the renderer sizes port rows from history-dependent counters), DOT source parsed and compared structurally with the HUGR",
+        "level_text": "As for C12, the renderer reads the graph store's connected-port counters, whose values depend on the order in which builders linked ports; the check renders engine-B products under scheduler-chosen interleavings and compares a parse of the DOT source with the HUGR's public observation.",
+        "level_note": "Trusted: oracles/dot.py (parser for the subset of DOT graphviz emits). Cells: the statement says one cell per port while num_ports documents itself as a lower bound; any k between highest linked offset + 1 and the signature's count is accepted. Order edges are endpoints with offset -1; no cell is demanded for them.",
+    },
 }
 
 
